@@ -340,11 +340,13 @@ def finish(pid, tier, seed, merged, spec, wall_s, inconclusive_reasons):
         if not hit and fn in spec.get("must_reach", []):
             reasons.append(f"anchored function {fn} never executed")
 
-    os.makedirs(os.path.join(VERIF_DIR, "evidence"), exist_ok=True)
-    os.makedirs(os.path.join(VERIF_DIR, "replays"), exist_ok=True)
+    evdir = os.environ.get("VERIF_EVIDENCE_DIR") or os.path.join(VERIF_DIR, "evidence")
+    rpdir = os.environ.get("VERIF_REPLAY_DIR") or os.path.join(VERIF_DIR, "replays")
+    os.makedirs(evdir, exist_ok=True)
+    os.makedirs(rpdir, exist_ok=True)
     replay_paths = []
     for i, (v, _k) in enumerate(real):
-        p = os.path.join(VERIF_DIR, "replays", f"{pid}_{tier}_s{seed}_{i}.json")
+        p = os.path.join(rpdir, f"{pid}_{tier}_s{seed}_{i}.json")
         with open(p, "w") as f:
             json.dump(v, f, indent=1)
         replay_paths.append(p)
@@ -377,7 +379,7 @@ def finish(pid, tier, seed, merged, spec, wall_s, inconclusive_reasons):
     if err:
         reasons.append(f"evidence does not validate: {err[:300]}")
         ev["coverage"]["inconclusive_reasons"] = reasons
-    with open(os.path.join(VERIF_DIR, "evidence", f"{pid}.json"), "w") as f:
+    with open(os.path.join(evdir, f"{pid}.json"), "w") as f:
         json.dump(ev, f, indent=1)
 
     mons = ", ".join(f"{k}={v['comparisons']}" for k, v in sorted(merged["monitors"].items()))
